@@ -8,3 +8,7 @@ import CheetahModel.Properties.C05
 #print axioms C05.ad_sound_functions
 #print axioms C05.ad_sound_leaves
 #print axioms C05.drift_r56_energy_gradient
+#print axioms C05.reverse_eq_forward
+#print axioms C05.forward_is_derivative
+#print axioms C05.reverse_is_gradient
+#print axioms C05.reverse_gradient_at_guard
